@@ -1087,9 +1087,14 @@ def new_class_is_stored_whole(repo, rep):
     ELEMS = ('properties', 'methods', 'qualifiers', 'parameters')
     n = 0
     for name in ('CreateClass', 'ModifyClass'):
-        f = mp.methods.get(name)
-        if f is None:
+        f0 = mp.methods.get(name)
+        if f0 is None:
             raise AnalysisError('MainProvider.%s vanished' % name)
+        # with the private helpers inlined (the resolver stays a call: what
+        # it does to the class is the resolution itself)
+        from ..inline import Flat
+        f = Flat(f0, keep=('_resolve_class', '_resolve_qualifiers',
+                           '_resolve_objects'))
         writes = [c for c in walk_no_nested(f.node)
                   if isinstance(c, ast.Call) and
                   isinstance(c.func, ast.Attribute) and
@@ -1097,12 +1102,13 @@ def new_class_is_stored_whole(repo, rep):
                   norm(c.func.value).endswith('class_store') and
                   len(c.args) == 2]
         if not writes:
-            raise AnalysisError('%s: write to the class store not found'
-                                % name)
+            r16.notes.append('%s: no write to the class store in the method '
+                             'or its private helpers; not judged' % name)
+            continue
         stored = {norm(c.args[1]) for c in writes}
         n += 1
         r16.sites += 1
-        r16.functions.add(f.fq)
+        r16.functions.add(f0.fq)
         bad = []
         for st in walk_no_nested(f.node):
             tgt = None
